@@ -111,15 +111,15 @@ Qed.
 
 (* ------------------------------------------------------------------ non-degenerate meshes *)
 Definition tria_nondeg (v : list V3) (ts : list tri) : Prop :=
-  Forall (fun t => Rltb (tria_vol4_raw Rops v t) (eps52 Rops) = false) ts.
+  Forall (fun t => 0 < tria_vol4_raw Rops v t) ts.
 
 Lemma eps52_pos : 0 < eps52 Rops.
 Proof. unfold eps52, frac. cbn [div ofZ Rops]. lra. Qed.
 
-(* the guard replaces only an exactly vanishing value; it is inactive in particular above the machine epsilon *)
-Lemma fix_small_off thr repl x : Rltb x (eps52 Rops) = false -> fix_small Rops thr repl x = x.
+(* the guard replaces only an exactly vanishing value *)
+Lemma fix_small_off thr repl x : 0 < x -> fix_small Rops thr repl x = x.
 Proof.
-  intros H. apply Rltb_false in H. pose proof eps52_pos. unfold fix_small. cbn [eqb zero Rops].
+  intros H. unfold fix_small. cbn [eqb zero Rops].
   destruct (Reqb x 0) eqn:E; [|reflexivity]. exfalso. revert E. unfold Reqb. destruct (Req_EM_T x 0); [lra|discriminate].
 Qed.
 Lemma tria_vols4_nondeg v ts : tria_nondeg v ts -> tria_vols4 Rops v ts = map (tria_vol4_raw Rops v) ts.
@@ -128,14 +128,14 @@ Proof.
   unfold tria_nondeg in H. rewrite Forall_forall in H. rewrite (fix_small_off _ _ _ (H t Ht)). reflexivity.
 Qed.
 
-Lemma tria_nondeg_NN v t1 t2 t3 : Rltb (tria_vol4_raw Rops v (t1, t2, t3)) (eps52 Rops) = false ->
+Lemma tria_nondeg_NN v t1 t2 t3 : 0 < tria_vol4_raw Rops v (t1, t2, t3) ->
   let '(p1, p2, p3) := tri_pts Rops v (t1, t2, t3) in 0 < tri_NN p1 p2 p3.
 Proof.
   unfold tria_vol4_raw, tri_pts. set (p1 := getv Rops v t1). set (p2 := getv Rops v t2). set (p3 := getv Rops v t3).
-  fold (tri_N p1 p2 p3). fold (tri_NN p1 p2 p3). intros H. apply Rltb_false in H.
-  assert (E := eps52_pos). cbn [two one add mul sqrtK Rops] in H.
+  fold (tri_N p1 p2 p3). fold (tri_NN p1 p2 p3). intros H.
+  cbn [two one add mul sqrtK Rops] in H.
   destruct (Rle_lt_or_eq_dec _ _ (tri_NN_nonneg p1 p2 p3)) as [Hp|Hz]; [exact Hp|].
-  exfalso. apply H. rewrite <- Hz, sqrt_0. lra.
+  exfalso. rewrite <- Hz, sqrt_0 in H. lra.
 Qed.
 
 Definition tria_energy (v : list V3) (f g : nat -> R) (t : tri) : R :=
@@ -168,7 +168,7 @@ Theorem fem_tria_A_denominators v ts : tria_nondeg v ts -> Forall (fun vol => vo
 Proof.
   intros H. rewrite tria_vols4_nondeg by assumption. apply Forall_forall. intros x Hx.
   apply in_map_iff in Hx. destruct Hx as (t & <- & Ht). unfold tria_nondeg in H. rewrite Forall_forall in H.
-  specialize (H t Ht). apply Rltb_false in H. assert (E := eps52_pos). lra.
+  specialize (H t Ht). lra.
 Qed.
 
 (* ------------------------------------------------------------------ C02: mass matrix *)
@@ -178,7 +178,7 @@ Lemma tria_nondeg_vol4_pos v ts : tria_nondeg v ts -> tria_vol4_pos v ts.
 Proof.
   intros H. unfold tria_vol4_pos. rewrite tria_vols4_nondeg by assumption. apply Forall_forall. intros x Hx.
   apply in_map_iff in Hx. destruct Hx as (t & <- & Ht). unfold tria_nondeg in H. rewrite Forall_forall in H.
-  specialize (H t Ht). apply Rltb_false in H. assert (E := eps52_pos). lra.
+  specialize (H t Ht). lra.
 Qed.
 
 Theorem fem_tria_B_bilin_sym lump v ts f g : bil f (fem_tria_B Rops lump v ts) g = bil g (fem_tria_B Rops lump v ts) f.
@@ -281,8 +281,7 @@ Qed.
 (* non-vacuity: the unit right triangle is non-degenerate in the sense of the guard *)
 Example tria_nondeg_example : tria_nondeg [(0, 0, 0); (1, 0, 0); (0, 1, 0)] [(0, 1, 2)%nat].
 Proof.
-  constructor; [|constructor]. apply Rltb_false. assert (E := eps52_pos).
+  constructor; [|constructor].
   unfold tria_vol4_raw, tri_pts, getv. cbn [nth]. unfold dot, cross, vsub, vx, vy, vz. cbn [fst snd two one add sub mul sqrtK Rops].
-  match goal with |- context [sqrt ?x] => replace x with 1 by ring end. rewrite sqrt_1.
-  unfold eps52, frac. cbn [div ofZ Rops]. lra.
+  match goal with |- context [sqrt ?x] => replace x with 1 by ring end. rewrite sqrt_1. lra.
 Qed.
